@@ -36,9 +36,12 @@ class LiveLife(L.Life):
         self.world = w
         if act[0] in ("C", "U", "R") and out is True and o is not None and "C03" in self.en:
             inflight = [t for t in w.pool.tasks if t.state != "done" and t.package is not None and any(x is o for x in t.package._orders)]
+            # an asynchronous placement is over at the exchange once the bet exists and the stream has reported it
+            # (the order knows its bet id); what is still in transit is only the "PENDING" acknowledgement
+            inflight = [t for t in inflight if not (t.package.package_type.name == "PLACE" and getattr(t.package, "async_", False) and o.bet_id is not None)]
             self.c("clause:C03.b")
             self.c("live_requests_accepted")
-            if len(inflight) > 1:
+            if len(inflight) > 1:  # the request just accepted is one of them
                 self.v("C03.b", ("two-in-flight", {"C": "cancel", "U": "update", "R": "replace"}[act[0]], "accepted-while-outstanding"), "request accepted while %d earlier operation(s) on the order are still outstanding at the exchange" % (len(inflight) - 1))
         if act[0] in ("P", "C", "U", "R"):
             return super().post_action(w, st, market, act, o, out)
@@ -84,8 +87,9 @@ class LiveLife(L.Life):
 
 
 def _job(args):
-    name, budgets, fault, enabled = args
-    meta = dict(script=name, budgets=budgets, fault=fault)
+    name, budgets, fault, enabled = args[:4]
+    async_place = bool(args[4]) if len(args) > 4 else False
+    meta = dict(script=name, budgets=budgets, fault=fault, async_place=async_place)
     viol, counts = [], {}
     holder = {}
     fp = None
@@ -100,7 +104,7 @@ def _job(args):
     def mk():
         h = LiveLife(enabled, meta)
         holder["h"] = h
-        w = livex.LiveWorld(SCRIPTS[name], hooks=h, budgets=budgets, fault_plan=fp, strategy_kw=dict(max_live_trade_count=2))
+        w = livex.LiveWorld(SCRIPTS[name], hooks=h, budgets=budgets, fault_plan=fp, strategy_kw=dict(max_live_trade_count=2), async_place=async_place)
         h.world = w
         w.start()
         return w
@@ -134,6 +138,9 @@ def explore_live(rep, enabled, tier):
     for name in ("place-cancel", "place-cancelpart-cancel", "place-replace-cancel", "place-update-cancel"):
         for f in ("transport-before", "transport-after"):
             jobs.append((name, dict(fill=0, lapse=0, dup=0), (1, f), sorted(enabled)))
+    # asynchronous placement: the reply says PENDING, the stream brings the bet id (possibly before the reply)
+    for name in ("place-cancel", "place-replace-cancel"):
+        jobs.append((name, dict(fill=0, lapse=0, dup=0), None, sorted(enabled), True))
     n = 0
     for r in core.pmap(_job, jobs, chunk=1):
         rep.add_violations(r["violations"])
@@ -160,7 +167,7 @@ def replay_live(case, enabled):
         f = m["fault"][1]
         fp = {m["fault"][0]: ({"transport": "before" if f.endswith("before") else "after", "error": "APIError"} if f.startswith("transport") else {"per": [f]})}
     h = LiveLife(set(enabled), m)
-    w = livex.LiveWorld(SCRIPTS[m["script"]], hooks=h, budgets=dict(m["budgets"]), fault_plan=fp, strategy_kw=dict(max_live_trade_count=2))
+    w = livex.LiveWorld(SCRIPTS[m["script"]], hooks=h, budgets=dict(m["budgets"]), fault_plan=fp, strategy_kw=dict(max_live_trade_count=2), async_place=bool(m.get("async_place")))
     h.world = w
     w.start()
     try:
